@@ -57,6 +57,8 @@ public:
   Source& operator=(const Source&) = delete;
 
   [[nodiscard]] bool IsOpened() const noexcept { return open; }
+  // the document is changed while it is closed and stored again (another session): no notification, nothing pending
+  void OfflineEdit(const std::function<void(ccl::semantic::RSForm&)>& edit) { if (!open) { edit(schema); saved = true; } }
   [[nodiscard]] bool IsSaved() const noexcept { return saved; }
   // content just put there by the environment counts as the saved, already announced state of the document
   void MarkPristine() { saved = true; announcedCore = schema.CoreHash(); }
@@ -169,6 +171,8 @@ public:
     src->open = true;
     ++opens;
     SourceManager::OnSourceOpen(*src);
+    // an opened document whose formal content differs from what was last announced is an announced change of that source
+    { const auto now = src->schema.CoreHash(); const bool changed = now != src->announcedCore; src->announcedCore = now; ++seq; if (changed && onAnnounce) onAnnounce(*src, true, seq); }
     return src;
   }
 
